@@ -23,6 +23,14 @@ Proof. vm_compute. reflexivity. Qed.
 Lemma jp_summary_start_ok : 0 <= gen_jp_summary_start < gen_jp_tmpl_summary_rows.
 Proof. vm_compute. split; congruence. Qed.
 
+(** the summary lines start right under the header: the rows around the start row are blank in the template and the
+    totals line (start + 2) carries the template's label *)
+Lemma jp_summary_layout_fits_template :
+  forallb (fun rc => negb ((gen_jp_summary_start - 1 <=? fst rc) && (fst rc <=? gen_jp_summary_start + 1))) gen_jp_tmpl_summary_cells = true /\
+  has_label gen_jp_tmpl_summary_cells (gen_jp_summary_start + 2) 0 = true /\
+  has_label gen_jp_tmpl_summary_cells (gen_jp_summary_start - 2) 0 = true.
+Proof. vm_compute. repeat split; reflexivity. Qed.
+
 Section Summary.
 Variable lang : Z.
 Variable exs : list str.
